@@ -373,11 +373,11 @@ func sameTail(got, ref *parsed) bool {
 
 // Classes of judged paths.
 const (
-	clValid    = "valid-layout-path"          // strict reading exists: full round trip demanded
-	clReject   = "not-layout:must-reject"     // no reading at all: must be rejected
-	clLenientA = "lenient-only:accepted"      // only a lenient reading: accepted, components compared
-	clLenientR = "lenient-only:rejected"      // only a lenient reading: rejected (nothing demanded)
-	clAmbig    = "lenient-only:ambiguous"     // several lenient readings
+	clValid    = "valid-layout-path"      // strict reading exists: full round trip demanded
+	clReject   = "not-layout:must-reject" // no reading at all: must be rejected
+	clLenientA = "lenient-only:accepted"  // only a lenient reading: accepted, components compared
+	clLenientR = "lenient-only:rejected"  // only a lenient reading: rejected (nothing demanded)
+	clAmbig    = "lenient-only:ambiguous" // several lenient readings
 )
 
 // judge applies the oracle to an arbitrary path text.
